@@ -4,6 +4,7 @@ Exit codes: 0 property held on everything decided; 1 VIOLATION (printed); 2 unde
 (drift, unsupported construct, resource limit, vacuity canary) -- never an alarm.
 """
 import concurrent.futures as cf
+import copy
 import importlib
 import json
 import os
@@ -61,12 +62,40 @@ def verify_unit(uname, prop, seed):
     wd = os.path.join(BUILD, "verus", prop)
     os.makedirs(wd, exist_ok=True)
     path = os.path.join(wd, uname + ".rs")
+    has_findings = True   # variants (finding copies and vacuity canaries) always go to the second run
+    rl = unit.rlimit
+    fut = None
+    if has_findings:
+        # second run, in parallel: the finding variants only, on the full file, under a small resource
+        # limit (a listed finding is expected NOT to verify; running out of resources counts as that)
+        fpath = os.path.join(wd, uname + "__findings.rs")
+        with open(fpath, "w") as f:
+            f.write(text)
+        funit = copy.copy(unit)
+        funit._index(text)
+        ex2 = cf.ThreadPoolExecutor(max_workers=1)
+        vrl = getattr(unit, "variants_rlimit", None) or rl
+        fut = ex2.submit(V.run_verus, fpath, vrl, None, 900, ("--verify-root", "--verify-function", "*__*", "--multiple-errors", "1"))
+        text = unit.generate(findings=False)
     with open(path, "w") as f:
         f.write(text)
-    rl = unit.rlimit
     cmd, out, err, rc, wall = V.run_verus(path, rlimit=rl, seed=None)
     js, diags, other = V.parse(out, err)
     r = V.classify(unit, js, diags, rc)
+    if fut is not None:
+        fcmd, fout, ferr, frc, fwall = fut.result()
+        fjs, fdiags, fother = V.parse(fout, ferr)
+        fr = V.classify(funit, fjs, fdiags, frc)
+        ex2.shutdown()
+        # keep only what concerns finding variants
+        r["failures"] += [f for f in fr["failures"] if "__" in (f["fid"] or "")]
+        r["rlimit_findings"] = fr.get("rlimit_findings", [])
+        r["functions"].update({k: v for k, v in fr.get("functions", {}).items() if "__" in k})
+        if fr["status"] == "undecided" and "resource limit" not in fr["reason"]:
+            r["status"] = "undecided"; r["reason"] = "findings run: " + fr["reason"]
+        wall = max(wall, fwall)
+        # the driver needs the function table of the full file (with finding variants)
+        unit.generate(findings=True)
     if r["status"] == "undecided" and "resource limit" in r["reason"]:
         rl2 = (rl or 10) * 3
         cmd, out, err, rc, wall2 = V.run_verus(path, rlimit=rl2, seed=None)
@@ -183,7 +212,11 @@ def run_property(prop, tier, seed):
                     continue
                 obid = "%s/%s#%s" % (uname, fid, flabel)
                 finding_obligations += 1
-                hit = [f for f in fl if f["label"] == flabel]
+                # the variant differs from the (separately verified) main copy only by the finding clause:
+                # any failure of the variant is attributed to that clause
+                hit = [f for f in fl if f["label"] == flabel] or fl[:1]
+                if not hit and fid in r.get("rlimit_findings", []):
+                    hit = [{"fid": fid, "label": flabel, "message": "resource limit exceeded while checking the finding clause (not verified)", "detail": "rlimit", "rendered": "", "source": ""}]
                 if hit:
                     finding_failing += 1
                     if obid in known_by_ob:
